@@ -80,4 +80,50 @@ Seeds == {
        properties |-> << <<"a", Sch([type |-> "object", properties |-> << <<"b", Ty("string")>> >>])>>,
                          <<"b", Sch([type |-> "object", properties |-> << <<"b", Ty("string")>> >>])>> >>])
 }
+
+(* Seeds for the runs with unsupported keywords only (C20): two property names that map to *)
+(* one Python name -- the later declaration wins, the earlier one is still part of the     *)
+(* document, and an unsupported keyword inside it must be refused.  (Kept out of the other *)
+(* runs: what an attribute stands for when names collide is the subject of C12.)           *)
+SeedsUns == { Sch([properties |-> << <<"a-b", Empty>>, <<"a_b", Ty("string")>> >>]) }
+
+(***************************************************************************)
+(* Seeds explored as they are (no further insertion): each pins one        *)
+(* interaction that needs four or more specific keywords at once.          *)
+(***************************************************************************)
+LOCAL O(pairs) == JObj(pairs)
+LOCAL Acc == Sch([type |-> "object", title |-> "Acc", properties |-> << <<"class", Ty("string")>> >>,
+                  required |-> <<"class">>])
+LOCAL Addr(d) == Sch([type |-> "object", title |-> "Addr", description |-> d,
+                      properties |-> << <<"a", Ty("string")>> >>])
+Seeds0 == {
+  (* oneOf directly inside oneOf: "ab" matches both inner members (so not the inner oneOf) and the pattern *)
+  Sch([oneOf |-> << Sch([oneOf |-> << Sch([minLength |-> 2]), Sch([maxLength |-> 3]) >>]),
+                    Sch([pattern |-> "^a"]) >>]),
+  (* a list default that is invalid only after an item that converts (its raw form must come back) *)
+  Sch([type |-> "array",
+       items |-> Sch([type |-> "object", properties |-> << <<"a", Ty("integer")>> >>, required |-> <<"a">>]),
+       default |-> JArr(<< O(<< <<"a", JInt(1)>> >>), O(<< <<"b", JInt(1)>> >>) >>)]),
+  (* one class (renamed required property) reached twice: de-duplicated to one definition, whose *)
+  (* shared dictionary is visited twice when the serialized document is parsed again            *)
+  Sch([type |-> "object", title |-> "T", properties |-> << <<"a", Acc>>, <<"b", Acc>> >>]),
+  (* an object-valued default next to a composition keyword (every dictionary is labelled) *)
+  Sch([anyOf |-> << Ty("string"), Ty("null") >>,
+       default |-> O(<< <<"a", O(<< <<"b", JInt(1)>> >>)>> >>)]),
+  (* two classes that differ in their description only *)
+  Sch([type |-> "object", title |-> "T", properties |-> << <<"a", Addr("one")>>, <<"b", Addr("two")>> >>]),
+  (* allOf whose FIRST member is a `not` (its construction is the caller's own value) *)
+  Sch([allOf |-> << ([sch |-> TRUE] @@ ("not" :> Ty("string"))),
+                    Sch([properties |-> << <<"a", Sch([default |-> JInt(1)])>>, <<"b", Empty>> >>]) >>]),
+  (* object literals with several keys (their order is the document's) *)
+  Sch([const |-> O(<< <<"b", JInt(1)>>, <<"a", JInt(2)>>, <<"ab", JInt(3)>> >>)]),
+  Sch([type |-> "object", title |-> "T",
+       default |-> O(<< <<"class", JInt(1)>>, <<"b", JInt(2)>>, <<"a", JInt(3)>> >>),
+       enum |-> << O(<< <<"b", JInt(1)>>, <<"a", JStr("x")>> >>), JNull >>]),
+  (* an empty tuple whose further items are objects of a class *)
+  Sch([type |-> "object", title |-> "T",
+       properties |-> << <<"a", Sch([type |-> "array", itemsT |-> <<>>,
+                                     additionalItems |-> Sch([type |-> "object",
+                                                              properties |-> << <<"a", Ty("integer")>> >>])])>> >>])
+}
 =============================================================================
